@@ -31,7 +31,7 @@ fn note(ctx: &Context<'_>, what: &str) {
 /// tokens, the table (type, field, rule text) that the start-up mirror check compares with schemas/limits.json.
 macro_rules! gql_object {
     ($rules:ident, $tname:literal; $($all:tt)*) => { $($all)* gql_object!(@table $rules, $tname; $($all)*); };
-    (@table $rules:ident, $tname:literal; # [Object] impl $ty:ident { $( $(#[graphql(complexity = $cx:literal)])? async fn $f:ident ( $($params:tt)* ) -> $ret:ty $body:block )* }) => {
+    (@table $rules:ident, $tname:literal; # [Object $(($($oargs:tt)*))?] impl $ty:ident { $( $(#[graphql(complexity = $cx:literal)])? async fn $f:ident ( $($params:tt)* ) -> $ret:ty $body:block )* }) => {
         const $rules: &[(&str, &str, &str)] = &[ $( ($tname, stringify!($f), gql_object!(@cx $($cx)?)) ),* ];
     };
     (@cx) => { "" };
@@ -42,6 +42,10 @@ macro_rules! gql_object {
 pub struct A;
 #[derive(Clone)]
 pub struct B;
+/// an object whose arguments are renamed: `rename_args = "snake_case"` (the GraphQL argument is `page_size`, not
+/// the default `pageSize`) and one argument renamed individually (`top_n` -> `topN`); both feed complexity rules
+#[derive(Clone)]
+pub struct S;
 pub struct Query;
 
 #[derive(Interface, Clone)]
@@ -78,6 +82,17 @@ impl B {
 }
 }
 
+gql_object! { S_RULES, "S";
+#[Object(rename_args = "snake_case")]
+impl S {
+    async fn id(&self, ctx: &Context<'_>) -> ID { note(ctx, "S.id"); ID("s".into()) }
+    #[graphql(complexity = "page_size * child_complexity")]
+    async fn pages(&self, ctx: &Context<'_>, #[graphql(default = 2)] page_size: usize) -> Vec<A> { let _ = page_size; note(ctx, "S.pages"); vec![A] }
+    #[graphql(complexity = "top_n * child_complexity + 1")]
+    async fn top(&self, ctx: &Context<'_>, #[graphql(name = "topN", default = 3)] top_n: usize) -> Vec<A> { let _ = top_n; note(ctx, "S.top"); vec![A] }
+}
+}
+
 gql_object! { Q_RULES, "Query";
 #[Object]
 impl Query {
@@ -90,6 +105,10 @@ impl Query {
     async fn n(&self, ctx: &Context<'_>) -> Option<i32> { note(ctx, "Query.n"); Some(7) }
     #[graphql(complexity = "2 * child_complexity + 1")]
     async fn heavy(&self, ctx: &Context<'_>) -> Option<A> { note(ctx, "Query.heavy"); Some(A) }
+    async fn s(&self, ctx: &Context<'_>) -> Option<S> { note(ctx, "Query.s"); Some(S) }
+    // the default rule (camelCase) on a multi-word argument: `perPage`
+    #[graphql(complexity = "per_page * child_complexity + 1")]
+    async fn paged(&self, ctx: &Context<'_>, #[graphql(default = 2)] per_page: usize) -> Vec<A> { let _ = per_page; note(ctx, "Query.paged"); vec![A] }
 }
 }
 
@@ -262,8 +281,9 @@ fn parse_rule(text: &str, args: &J) -> J {
     if cc.trim() != "child_complexity" { tool_error(&format!("rule text {t}")); }
     let x = x.trim();
     if let Ok(m) = x.parse::<i64>() { return json!({"k": "lin", "arg": "", "mul": m, "add": add, "def": 0}); }
-    let def = args.as_array().unwrap().iter().find(|a| a["name"] == x).map(|a| a["default"].as_i64().unwrap()).unwrap_or_else(|| tool_error(&format!("rule {t}: unknown argument {x}")));
-    json!({"k": "lin", "arg": x, "mul": 0, "add": add, "def": def})
+    // the rule text names the Rust parameter (`ident`); the abstract rule names the GraphQL argument it stands for
+    let a = args.as_array().unwrap().iter().find(|a| a["ident"] == x).unwrap_or_else(|| tool_error(&format!("rule {t}: unknown parameter {x}")));
+    json!({"k": "lin", "arg": a["name"], "mul": 0, "add": add, "def": a["default"].as_i64().unwrap()})
 }
 
 fn mirror_check(ts: &J) {
@@ -280,14 +300,14 @@ fn mirror_check(ts: &J) {
     if got != want { tool_error(&format!("schemas/limits.json does not mirror the dynamic twin:\n json: {want}\n live: {got}")); }
     // complexity rules: the table generated next to the annotations
     let mut seen = 0;
-    for (t, f, text) in A_RULES.iter().chain(B_RULES).chain(Q_RULES) {
+    for (t, f, text) in A_RULES.iter().chain(B_RULES).chain(S_RULES).chain(Q_RULES) {
         let fd = &ts["types"][*t]["fields"][*f];
         if fd.is_null() { tool_error(&format!("limits.json lacks {t}.{f}")); }
         let rule = parse_rule(text, &fd["args"]);
         if rule != fd["rule"] || fd["ruleText"].as_str().unwrap_or("") != *text { tool_error(&format!("limits.json rule of {t}.{f} is {} but the family declares {text:?}", fd["rule"])); }
         seen += 1;
     }
-    let total: usize = ["A", "B", "Query"].iter().map(|t| ts["types"][*t]["fields"].as_object().unwrap().len()).sum();
+    let total: usize = ["A", "B", "S", "Query"].iter().map(|t| ts["types"][*t]["fields"].as_object().unwrap().len()).sum();
     if seen != total { tool_error("limits.json and the family differ in the number of object fields"); }
     for (_, fd) in ts["types"]["Node"]["fields"].as_object().unwrap() { if fd["rule"]["k"] != "default" { tool_error("interface fields cannot declare complexity rules"); } }
 }
